@@ -42,6 +42,12 @@ class SimRuntime(RuntimeError):
     'loop is already running' conditions."""
 
 
+class SimStop(StopIteration):
+    """StopIteration escaping from a callback (an unguarded ``next()`` on an exhausted iterator): an
+    ordinary failure for synchronous machines.  (Inside a coroutine Python itself turns it into a
+    RuntimeError, so it is only injected into machines without coroutine callbacks.)"""
+
+
 class SimAttr(AttributeError):
     """An AttributeError raised from inside a callback or property body (e.g. ``self.customer.vip``
     with ``customer`` set to None): an ordinary failure, not 'the attribute does not exist'."""
@@ -60,6 +66,7 @@ EXC_CLASSES = {
     "SimStorageError": SimStorageError,
     "SimRuntime": SimRuntime,
     "SimAttr": SimAttr,
+    "SimStop": SimStop,
 }
 
 
